@@ -290,6 +290,9 @@ func SetOpaqueUnits(fns ...*ssa.Function) {
 	reachCache = sync.Map{}
 }
 
+// IsOpaqueUnit reports whether the property being checked named fn (it is a unit with rules of its own).
+func IsOpaqueUnit(fn *ssa.Function) bool { return opaqueUnits[fn] }
+
 // AddOpaqueUnit adds one function to the opaque units.
 func AddOpaqueUnit(fn *ssa.Function) {
 	if fn == nil || opaqueUnits[fn] {
